@@ -15,7 +15,7 @@ P="$(cd "$(dirname "$P")" && pwd)/$(basename "$P")"
 HEAD=$(git -C /repo rev-parse HEAD)
 if [ ! -d $SR ]; then git -C /repo worktree add -q --detach $SR $HEAD || exit 2; fi
 ( cd $SR && git checkout -q -- . && git checkout -q --detach $HEAD && cp /repo/Cargo.lock . ) || exit 2
-mkdir -p $SV && rsync -a --delete --exclude target --exclude replays --exclude .git /verif/ $SV/ && sed -i "s#/repo/#$SR/#g" $SV/sim/Cargo.toml
+mkdir -p $SV && rsync -a --delete --exclude target --exclude replays --exclude .git "${VERIF_SRC:-/verif}"/ $SV/ && sed -i "s#/repo/#$SR/#g" $SV/sim/Cargo.toml
 ( cd $SR && git apply "$P" ) 2>/dev/null || { echo "patch does not apply: $P"; exit 2; }
 CHECKS="${*:-$(python3 -c "import json;print(' '.join(c['property_id'] for c in json.load(open('/verif/MANIFEST.json'))['checks']))")}"
 cd $SV
